@@ -163,6 +163,10 @@ def run_one(m):
             return name, prop, 'NOBUILD', (b.stdout + b.stderr)[-300:]
         p = subprocess.run([os.path.join(V, 'bin', 'govc'), 'check', prop, 'quick'], cwd=V, capture_output=True, text=True,
                            env=dict(ENV, VERIF_REPO=os.path.join(d, 'repo'), VERIF_OUT=os.path.join(d, 'out'), GOVC_NO_REPLAY='1'))
+        if p.returncode == 2:
+            # undecided without a replay: let the replay drivers try to exhibit a failing input on the real code
+            p = subprocess.run([os.path.join(V, 'bin', 'govc'), 'check', prop, 'quick'], cwd=V, capture_output=True, text=True,
+                               env=dict(ENV, VERIF_REPO=os.path.join(d, 'repo'), VERIF_OUT=os.path.join(d, 'out')))
         viol = [l.split('obligation=')[1].split()[0] for l in p.stdout.splitlines() if l.startswith('VIOLATION')]
         if p.returncode == 1:
             return name, prop, 'CAUGHT', ' '.join(viol[:2])
